@@ -280,7 +280,13 @@ func FindMaxFromComparableMap[M ~map[K]V, K comparable, V constraints.Ordered](m
 	if m == nil {
 		return
 	}
+	var first bool
 	for _, v := range m {
+		if !first {
+			result = v
+			first = true
+			continue
+		}
 		if result < v {
 			result = v
 		}
@@ -293,7 +299,13 @@ func FindMaxFromMap[M ~map[K]V, K comparable, V any, N constraints.Ordered](m M,
 	if m == nil {
 		return
 	}
+	var first bool
 	for _, v := range m {
+		if !first {
+			result = v
+			first = true
+			continue
+		}
 		if handler(result) < handler(v) {
 			result = v
 		}
